@@ -506,7 +506,13 @@ class World:
         self.alias = {}
         self.weight = _dyadic(rng, 0.125, 1.0, 64)
         self.seed_note = seed_note
-        self._build(aniso)
+        for attempt in range(6):
+            try:
+                self._build(aniso)
+                break
+            except Unsupported as ex:
+                if "could not generate" not in str(ex) or attempt == 5:
+                    raise
 
     # -- construction ------------------------------------------------------------------
     def _random_cell(self, aniso):
@@ -622,7 +628,7 @@ class World:
             X2 = K @ (xp - W[0])
             orient = rng.choice([1, -1]) if g > t else 1
             return Side(name, W, orient, f2, X2)
-        raise RuntimeError("could not generate a neighbour cell")
+        raise Unsupported("could not generate a neighbour cell")
 
     # -- access ------------------------------------------------------------------------
     def side(self, s):
